@@ -413,4 +413,110 @@ def r5(repo, rep, modules=("simulation", "analytic"), extra=()):
                     for e in es:
                         rep.ob("R5", False, "%s %s" % (f.name, p), detail=e.what, func=f, node=e.node)
     # module-level state written from functions
-    rep.floor("R5", "public entry points analysed", n, 80)
+    rep.floor("R5", "public entry points analysed", n, 80 if "analytic" in modules else 20)
+
+
+# ---------------------------------------------------------------------------
+# R5d: reading a defaultdict row with a key it may not have inserts that key
+# ---------------------------------------------------------------------------
+def _defaultdict_row_producers(repo):
+    """Package functions that return a mapping whose VALUES are defaultdicts (e.g. get_Pnk)."""
+    out = set()
+    for f in repo.all_funcs():
+        env = {}
+        for n in own_nodes(f.node):
+            if isinstance(n, ast.Assign) and len(n.targets) == 1 and isinstance(n.targets[0], ast.Name):
+                env.setdefault(n.targets[0].id, []).append(n.value)
+
+        def rows_default(v):
+            if isinstance(v, ast.DictComp):
+                return isinstance(v.value, ast.Call) and attr_chain(v.value.func) in ("defaultdict", "collections.defaultdict")
+            if isinstance(v, ast.Dict):
+                return bool(v.values) and all(isinstance(x, ast.Call) and attr_chain(x.func) in ("defaultdict", "collections.defaultdict")
+                                              for x in v.values)
+            if isinstance(v, ast.Call) and attr_chain(v.func) in ("defaultdict", "collections.defaultdict") and v.args \
+                    and isinstance(v.args[0], ast.Lambda) and isinstance(v.args[0].body, ast.Call) \
+                    and attr_chain(v.args[0].body.func) in ("defaultdict", "collections.defaultdict"):
+                return True
+            return False
+        for n in own_nodes(f.node):
+            if isinstance(n, ast.Return) and isinstance(n.value, ast.Name) and any(rows_default(v) for v in env.get(n.value.id, [])):
+                out.add(f.name)
+            elif isinstance(n, ast.Return) and n.value is not None and rows_default(n.value):
+                out.add(f.name)
+    return out
+
+
+def r5d(repo, rep):
+    rep.rule("R5d", "an argument that the package itself produces as a mapping of defaultdict rows (get_Pnk) is only read with "
+                    "`rows[a][b]` where b is taken from rows[a] itself (its keys/items, or under `b in rows[a]`, or .get): a read "
+                    "with any other key silently INSERTS that key into the caller's object")
+    producers = _defaultdict_row_producers(repo)
+    rep.count("R5d:producers of defaultdict-row mappings", len(producers))
+    sites, _ = sites_of(repo)
+    tainted = set()
+    for s in sites:
+        if not isinstance(s.callee, Func):
+            continue
+        env = {}
+        for n in own_nodes(s.caller.node):
+            if isinstance(n, ast.Assign) and len(n.targets) == 1 and isinstance(n.targets[0], ast.Name):
+                env.setdefault(n.targets[0].id, []).append(n.value)
+        for formal, actual in s.binding.items():
+            vals = [actual] + (env.get(actual.id, []) if isinstance(actual, ast.Name) else [])
+            if any(isinstance(v, ast.Call) and (attr_chain(v.func) or "").split(".")[-1] in producers for v in vals):
+                tainted.add(formal)
+    rep.count("R5d:parameter names fed from such a producer", len(tainted))
+    nread = 0
+    for f in repo.all_funcs():
+        if f.module != "analytic" and f.module != "simulation":
+            continue
+        mine = [p for p in f.all_params if p in tainted]
+        if not mine:
+            continue
+        rep.analysed(f)
+        for c in walk_nodes_with_parents(f.node):
+            n, parents = c
+            if not (isinstance(n, ast.Subscript) and isinstance(n.ctx, ast.Load) and isinstance(n.value, ast.Subscript)
+                    and isinstance(n.value.value, ast.Name) and n.value.value.id in mine):
+                continue
+            nread += 1
+            rows, a, b = n.value.value.id, n.value.slice, n.slice
+            row_txt = "%s[%s]" % (rows, short(a, 30))
+            ok = False
+            if isinstance(b, ast.Name):
+                for par in parents:
+                    its = []
+                    if isinstance(par, ast.For):
+                        its.append((par.target, par.iter))
+                    for g in getattr(par, "generators", []) or []:
+                        its.append((g.target, g.iter))
+                    for tgt, it in its:
+                        tn = [x.id for x in ast.walk(tgt) if isinstance(x, ast.Name)]
+                        if b.id in tn:
+                            base = it
+                            if isinstance(base, ast.Call) and isinstance(base.func, ast.Attribute) and base.func.attr in ("keys", "items") and not base.args:
+                                base = base.func.value
+                            if short(base, 80).replace(" ", "") == row_txt.replace(" ", ""):
+                                ok = True
+                    if isinstance(par, (ast.If, ast.IfExp)) and isinstance(par.test, ast.Compare) and len(par.test.ops) == 1 \
+                            and isinstance(par.test.ops[0], ast.In) and short(par.test.left, 30) == b.id \
+                            and short(par.test.comparators[0], 80).replace(" ", "") == row_txt.replace(" ", ""):
+                        ok = True
+            rep.ob("R5d", ok, "%s: %s[...] is read with a key of that row" % (f.name, row_txt), func=f, node=n,
+                   construct="%s read with %s" % (row_txt, short(b, 30)),
+                   detail="" if ok else "`%s[%s]` with a key that does not come from %s: when the rows are defaultdicts (as %s makes "
+                   "them) every miss inserts an entry into the caller's argument" % (row_txt, short(b, 30), row_txt, "/".join(sorted(producers))))
+    rep.floor("R5d", "reads of defaultdict rows", nread, 2)
+
+
+def walk_nodes_with_parents(root):
+    """(node, [ancestors inside root, outermost first]) not entering nested defs."""
+    stack = [(c, []) for c in root.body]
+    while stack:
+        n, par = stack.pop()
+        yield n, par
+        if isinstance(n, (ast.FunctionDef, ast.ClassDef)):
+            continue
+        for c in ast.iter_child_nodes(n):
+            stack.append((c, par + [n]))
